@@ -348,7 +348,7 @@ def save_kern(
         np.savetxt(
             fname=out,
             X=out_data,
-            fmt="%1.26s",
+            fmt="%s",
             delimiter="\t",
             newline="\n",
             header=header,
